@@ -812,7 +812,7 @@ R_FE = dict(
     assigns=['__CPROVER_object_whole(self)', 'g_clock', 'g_entered', 'g_root_entered'] + marks([K['EXIT']]),
     ensures=[('C01', '%s == 255 && %s == 255' % (R_ACT, R_REQD)), ('C01', '!g_root_entered && g_entered == 255'),
              # deactivation exits the active state and then the root
-             ('C01', '__CPROVER_old(g_clock) < %s && %s < %s && g_st[12][1] == __CPROVER_old(%s) && g_st[12][0] == 255' % (tk(12, 1), tk(12, 1), tk(12, 0), R_ACT)),
+             ('C01', '__CPROVER_old(g_clock) < %s && %s < %s && %s <= g_clock && g_st[12][1] == __CPROVER_old(%s) && g_st[12][0] == 255' % (tk(12, 1), tk(12, 1), tk(12, 0), tk(12, 0), R_ACT)),
              ('C11', t_empty(RC + '.previousTransition')), ('C02', t_empty(RC + '.request')), ('C09', '!%s.planData.planExists' % RC)])
 
 R_REPLAY = dict(
